@@ -147,7 +147,7 @@ fn queries(out: &mut Vec<String>, c: u64, r: u64) {
         out.push(format!("q c={} kind=RoomLogAt r={} date={}", c, r, t(d)));
     }
     for k in ["EdgeDeletionLog", "NodeDeletionLog", "RoomDailyNodes"] {
-        for e in [1, 0] {
+        for e in [1, 0, 2, 3] {
             for d in [t(14) + 777, t(12) + 1, t(13) + 9, t(20)] {
                 out.push(format!("q c={} kind={} r={} ent={} date={}", c, k, r, e, d));
             }
@@ -463,7 +463,7 @@ fn gen08(seed: u64, n: usize, out: &str) {
                         }
                     };
                     let date = if g.chance(3, 4) { t - (g.below(4) as i64) * DAY / 2 } else { (g.below(30) as i64) * DAY };
-                    let ent = if g.chance(4, 5) { 1 } else { 0 };
+                    let ent = if g.chance(4, 5) { 1 } else { g.below(4) };
                     let line = match g.below(14) {
                         0 => "kind=ProveIdentity".to_string(),
                         1 => "kind=HardwareFingerprint".to_string(),
